@@ -439,7 +439,9 @@ theorem nothing_after_overflow (ins : List In) : ∀ (s : S) (c : ConnSt), Over 
         | data evs =>
           simp only
           split
-          · exact ⟨by simp, h, c, hc⟩
+          · split   -- (data before the handshake was accepted: answered in HANDSHAKE, ignored once a rejection was started)
+            · exact ⟨by simp, h, c, hc⟩
+            · exact ⟨by simp, h, c, hc⟩
           · obtain ⟨_, h1, h2, h3⟩ := limit_total evs s c h hc
             exact ⟨by simp [h1], h2, h3⟩
         | streamClosed =>
